@@ -1,6 +1,6 @@
 import pathlib
 from concurrent.futures import ThreadPoolExecutor, Future
-from typing import IO, TextIO
+from typing import IO, Optional, TextIO
 
 
 class TeeProcessor:
@@ -26,7 +26,19 @@ class TeeProcessor:
     def _tee_pipe_run(
         self, pipe: IO[bytes], stream: TextIO, file_name: pathlib.Path
     ) -> None:
-        with open(file_name, "wb") as file:
+        # N.B. Whatever happens to the log file or to our own output stream, we
+        # keep reading until the pipe is closed. Otherwise the task would block
+        # forever as soon as the pipe is full. Recording the output must also
+        # not depend on being able to forward it (e.g., `cond run ... | head`
+        # closes our output stream early).
+        record_error: Optional[OSError] = None
+        file: Optional[IO[bytes]] = None
+        try:
+            file = open(file_name, "wb")
+        except OSError as ex:
+            record_error = ex
+        forward = True
+        try:
             while True:
                 # Read up to 4096 bytes at a time, but return as soon as we read
                 # some bytes.
@@ -34,8 +46,22 @@ class TeeProcessor:
                 if len(data) == 0:
                     # End of the stream.
                     break
-                file.write(data)
-                stream.buffer.write(data)
-                # Needed to maintain interactivity.
-                stream.flush()
-            stream.flush()
+                if file is not None:
+                    try:
+                        file.write(data)
+                    except OSError as ex:
+                        record_error = ex
+                        file.close()
+                        file = None
+                if forward:
+                    try:
+                        stream.buffer.write(data)
+                        # Needed to maintain interactivity.
+                        stream.flush()
+                    except (OSError, ValueError, AttributeError):
+                        forward = False
+        finally:
+            if file is not None:
+                file.close()
+        if record_error is not None:
+            raise record_error
